@@ -1,4 +1,5 @@
 import NeumannModel.RaftWal.LemmasRot
+import NeumannModel.RaftWal.LemmasFail
 /-
   C10 — Raft node restart never forgets a vote, a term or an acknowledged entry.
 
@@ -353,5 +354,145 @@ example : (step (restart 0 (fromEntries [.logEntryFull 3 5 [3, 5, 13]])) (.reque
 example : (fileOf wcrc toySer ((exec (initSys 0) ((rotDemo.take 2).map Act.ev)).dur)).length = 49 := by decide
 example : (fileOf wcrc toySer ((exec (initSys 0) ((rotDemo.take 2).map Act.ev)).dur)).length
     + (encodeRec wcrc (toySer (.logEntryFull 3 5 [3, 5, 13]))).length > 50 := by decide
+
+/-! ### histories in which the WAL rejects appends for a while (disk-space check, I/O error)
+
+  `ActF`: besides `ev e` / `crash e k` as above, `evFail e` runs handler `e` while EVERY `RaftWal::append`
+  returns `Err` without writing (what `check_space` does when less than `min_free_space_bytes` is left),
+  and `crashFail e k` kills the process `k` micro steps into such a handler.  `execF false` is the code
+  as it is, `execF true` the code with /verif/proposed/C10-append-entries-persist-first.diff.
+
+  * Term and vote: "persist, then change memory, then answer" is followed on every failure branch, so
+    both obligations hold in every such history (`term_and_vote_survive_wal_failures`,
+    `byte_crash_with_wal_failures`, `no_double_vote_with_wal_failures`).  The invariant behind these does
+    not assume that memory and WAL agree on the log.
+  * Log: `append_leader_entries` pushes a new entry into memory BEFORE `persist_log_entry` and leaves it
+    there when the append fails (and ignores a failed `LogTruncate`).  The leader's retry then finds the
+    entry "already held", writes nothing, and acknowledges it: an acknowledged entry that no restart will
+    ever see (`acked_entry_lost_after_wal_failure_witness`).  Outside the crash-only quantifier of C10
+    (hence reported as an observation by the harness), inside its statement.
+  * With the entry persisted first the full invariant is kept
+    (`repaired_append_keeps_all_obligations_under_wal_failures`). -/
+
+/-- **Term and vote survive any mix of WAL failures and crashes** (code as it is).  After any history —
+    handlers with a working WAL, handlers whose appends all fail, crashes at any micro step of either
+    kind — a restart has a term at least the highest the node acted in, holds every vote it announced
+    (or is past that term), and the running node's term and vote equal what a restart would recover. -/
+theorem term_and_vote_survive_wal_failures (id : Nat) (acts : List ActF) :
+    let σ := execF false (initSys id) acts
+    let r := restart id (fromEntries σ.dur)
+    σ.ghost.actedTerm ≤ r.term
+      ∧ (∀ v ∈ σ.ghost.votes, v.1 < r.term ∨ (v.1 = r.term ∧ r.votedFor = some v.2))
+      ∧ σ.node.term = r.term ∧ σ.node.votedFor = r.votedFor := by
+  have h := tvinv_execF false (initSys id) acts (tvinv_init id)
+  exact ⟨h.2.1, h.2.2, h.1.1, h.1.2⟩
+
+/-- the file cut at byte `n` while handler `e` (WAL working again) runs after a history with failures -/
+def crashFileF (id : Nat) (acts : List ActF) (e : Event) (n : Nat) : List Nat :=
+  let σ := execF false (initSys id) acts
+  (fileOf crc ser (σ.dur ++ recs (step σ.node e).micros)).take n
+
+/-- **Byte-granular crash after a history with WAL failures**: the cut file recovers without error to
+    the record-level crash state, is repaired to its exact encoding, and the restarted node satisfies the
+    term and vote obligations in force at that micro step. -/
+theorem byte_crash_with_wal_failures (h : GoodSer crc ser deser) (id : Nat) (acts : List ActF) (e : Event)
+    (n : Nat) (hn : (fileOf crc ser (execF false (initSys id) acts).dur).length ≤ n) :
+    ∃ s cnt en, recoverBytes crc deser (crashFileF crc ser id acts e n) = .ok s cnt en ∧
+      ∀ k, (execF false (initSys id) acts).dur.length
+            + (recs ((step (execF false (initSys id) acts).node e).micros.take k)).length = cnt →
+        let σ' := execActF false (execF false (initSys id) acts) (.crash e k)
+        s = fromEntries σ'.dur ∧ openRepair (crashFileF crc ser id acts e n) = fileOf crc ser σ'.dur
+          ∧ σ'.ghost.actedTerm ≤ (restart id s).term
+          ∧ (∀ v ∈ σ'.ghost.votes, v.1 < (restart id s).term
+                ∨ (v.1 = (restart id s).term ∧ (restart id s).votedFor = some v.2)) := by
+  obtain ⟨j, _, ⟨en, hrec⟩, hrep⟩ := byte_cut crc ser deser h (execF false (initSys id) acts).dur
+    (recs (step (execF false (initSys id) acts).node e).micros) n hn
+  refine ⟨_, _, en, hrec, ?_⟩
+  intro k hk
+  have hj : (recs ((step (execF false (initSys id) acts).node e).micros.take k)).length = j := by omega
+  have hd : (execActF false (execF false (initSys id) acts) (.crash e k)).dur
+      = (execF false (initSys id) acts).dur ++ (recs (step (execF false (initSys id) acts).node e).micros).take j := by
+    simp only [execActF, stepM, Bool.false_eq_true, if_false]
+    rw [recs_take, hj]
+  have hinv := tvinv_execActF false _ (.crash e k) (tvinv_execF false (initSys id) acts (tvinv_init id))
+  refine ⟨by rw [hd], by rw [hd]; exact hrep, ?_, ?_⟩
+  · have := hinv.2.1; rw [hd] at this; exact this
+  · have := hinv.2.2; rw [hd] at this; exact this
+
+/-- **No double vote, WAL failures included.** -/
+theorem no_double_vote_with_wal_failures (id : Nat) (acts : List ActF)
+    (t c1 c2 : Nat) (h1 : (t, c1) ∈ (execF false (initSys id) acts).ghost.votes)
+    (h2 : (t, c2) ∈ (execF false (initSys id) acts).ghost.votes) : c1 = c2 := by
+  have hf := votesFn_execF false (initSys id) acts (tvinv_init id) (by intro v hv; simp [initSys] at hv)
+  exact hf (t, c1) h1 (t, c2) h2 rfl
+
+/-- the log obligation in histories with WAL failures, code as it is.  False —
+    `acked_entry_lost_after_wal_failure_witness`. -/
+def acked_entries_survive_wal_failures : Prop :=
+  ∀ (id : Nat) (acts : List ActF),
+    let σ := execF false (initSys id) acts
+    ∀ a ∈ σ.ghost.acked, a ∈ (restart id (fromEntries σ.dur)).log
+
+/-- entry 1 acknowledged; AppendEntries(entry 2) while the WAL rejects appends: answered `success = false`,
+    but entry 2 stays in memory; the leader repeats the request with the WAL working again: entry 2 is
+    "already held", nothing is written, `success = true, match_index = 2`.  A restart has entry 1 only. -/
+def failDemo : List ActF :=
+  [.ev (.appendEntries 1 2 0 0 [(1, 11)]),
+   .evFail (.appendEntries 1 2 1 1 [(1, 12)]),
+   .ev (.appendEntries 1 2 1 1 [(1, 12)])]
+
+theorem acked_entry_lost_after_wal_failure_witness : ¬ acked_entries_survive_wal_failures := by
+  intro hall
+  have := hall 0 failDemo ⟨2, 1, 12⟩ (by decide)
+  revert this
+  decide
+
+/-- **The repair is sufficient.** With `append_leader_entries` persisting before it changes memory, every
+    history with WAL failures and crashes keeps all three obligations, and memory equals what a restart
+    recovers. -/
+theorem repaired_append_keeps_all_obligations_under_wal_failures (id : Nat) (acts : List ActF) :
+    let σ := execF true (initSys id) acts
+    let r := restart id (fromEntries σ.dur)
+    σ.ghost.actedTerm ≤ r.term
+      ∧ (∀ v ∈ σ.ghost.votes, v.1 < r.term ∨ (v.1 = r.term ∧ r.votedFor = some v.2))
+      ∧ (∀ a ∈ σ.ghost.acked, a ∈ r.log)
+      ∧ σ.node.log = r.log := by
+  obtain ⟨hS, hwf, hsat⟩ := inv_execF_fixed (initSys id) acts (inv_init id)
+  have hlog : (restart id (fromEntries (execF true (initSys id) acts).dur)).log = (execF true (initSys id) acts).node.log := by
+    simp only [restart, recoveredLog, hS.2.2]
+    exact filterMap_dec _
+  refine ⟨hsat.1, hsat.2.1, ?_, hlog.symm⟩
+  intro a ha
+  rw [hlog]
+  have hmem := hsat.2.2 a ha
+  rw [hS.2.2] at hmem
+  exact mem_map_entKV.mp hmem
+
+/-- the three steps of `failDemo` on the code as it is … -/
+example : (stepFail (execF false (initSys 0) (failDemo.take 1)).node (.appendEntries 1 2 1 1 [(1, 12)])).reply
+      = .append 1 false 2
+    ∧ (execF false (initSys 0) (failDemo.take 2)).node.log = [⟨1, 1, 11⟩, ⟨2, 1, 12⟩]
+    ∧ (execF false (initSys 0) (failDemo.take 2)).dur = (execF false (initSys 0) (failDemo.take 1)).dur
+    ∧ (step (execF false (initSys 0) (failDemo.take 2)).node (.appendEntries 1 2 1 1 [(1, 12)])).reply
+      = .append 1 true 2
+    ∧ recs (step (execF false (initSys 0) (failDemo.take 2)).node (.appendEntries 1 2 1 1 [(1, 12)])).micros = []
+    ∧ (restart 0 (fromEntries (execF false (initSys 0) failDemo).dur)).log = [⟨1, 1, 11⟩] := by decide
+/-- … and with the repair: the failing call leaves memory alone, the retry writes the record -/
+example : (execF true (initSys 0) (failDemo.take 2)).node.log = [⟨1, 1, 11⟩]
+    ∧ (restart 0 (fromEntries (execF true (initSys 0) failDemo).dur)).log = [⟨1, 1, 11⟩, ⟨2, 1, 12⟩] := by decide
+/-- a history with every kind of act: failing election, failing vote request of a higher term (answered
+    with the old term), a granted vote, a conflict overwritten in memory only while the WAL fails, crashes
+    of both kinds -/
+def failActs : List ActF :=
+  [.evFail .startElection, .evFail (.requestVote 3 2 0 0), .ev (.requestVote 3 2 0 0),
+   .ev (.appendEntries 3 2 0 0 [(3, 11), (3, 12)]), .ev (.appendEntries 4 1 0 0 []),
+   .evFail (.appendEntries 4 1 1 3 [(4, 22)]), .crashFail (.appendEntries 4 1 1 3 [(4, 22)]) 1,
+   .evFail (.propose 5), .crash (.requestVote 9 4 9 9) 1]
+example : (execF false (initSys 0) (failActs.take 2)).node.term = 0
+    ∧ (stepFail (initSys 0).node (.requestVote 3 2 0 0)).reply = .vote 0 false
+    ∧ (execF false (initSys 0) (failActs.take 3)).ghost.votes = [(3, 2)]
+    ∧ (execF false (initSys 0) (failActs.take 6)).node.log = [⟨1, 3, 11⟩, ⟨2, 4, 22⟩]
+    ∧ (execF false (initSys 0) (failActs.take 7)).node.log = [⟨1, 3, 11⟩, ⟨2, 3, 12⟩]
+    ∧ (execF false (initSys 0) failActs).node.term = 9 := by decide
 
 end Neumann.RaftWal.Props
